@@ -321,6 +321,8 @@ def sameDecode (S : Schema) (m : Nat) (bytes : Bytes) (d : Dec) (inVal : List Va
       else pure (some s!"{what}: Lean decode ≠ Go decode at {(diffMsg S m "" (canonMsg lv) (canonMsg gv)).getD "?"}")
 
 def judgeEncode (S : Schema) (inp : Json) : Except String Verdict := do
+  if getStrD inp "stream" == "raw" then
+    return { model := Json.mkObj [("variants", Json.arr #[])] }
   let name ← getStr inp "msg"
   let some m := findMsg S name | throw s!"unknown message {name}"
   let v ← parseMsg S m (← getObj inp "val")
@@ -464,12 +466,47 @@ def judgeCase (S : Schema) (inp obs : Json) : Except String Verdict := do
          nontrivial := wt && sz > 0, sig := sig, excluded := excl,
          model := Json.mkObj [("size", sz), ("enc", clip (tohex enc) 200)] }
 
+/-- stream `raw`: bytes no encoder produces. Outside the domain; enforced: whenever the Lean
+    decoder accepts, both Go decoders accept and return the same value. Everything else is
+    recorded in the signature (evidence `excluded_points`). -/
+def judgeRaw (S : Schema) (inp obs : Json) : Except String Verdict := do
+  let name ← getStr inp "msg"
+  let note := getStrD inp "note"
+  let cls := String.ofList (note.toList.takeWhile (· != ':'))
+  let some m := findMsg S name | throw s!"unknown message {name}"
+  let raw ← unhex (← getStr inp "raw")
+  let pb ← getDec obs "pb"
+  let vt ← getDec obs "vt"
+  let lean := decode S m raw
+  let mut dis : List String := []
+  match lean with
+  | some lv =>
+    for (d, w) in [(pb, "proto.Unmarshal"), (vt, "UnmarshalVT")] do
+      if !d.ok then dis := dis ++ [s!"{w} rejects ({d.err}) bytes the Lean decoder accepts"]
+      else match parseMsg S m d.dump with
+        | .ok gv =>
+          if !msgBeq (canonMsg lv) (canonMsg gv) then
+            dis := dis ++ [s!"{w} ≠ Lean decode at {(diffMsg S m "" (canonMsg lv) (canonMsg gv)).getD "?"}"]
+        | .error e => dis := dis ++ [s!"{w}: undumpable ({e})"]
+  | none => pure ()
+  -- do the two Go decoders agree with each other? (recorded only)
+  let goSame : String :=
+    if pb.ok && vt.ok then (if pb.dump == vt.dump then "same-value" else "DIFFERENT-VALUES")
+    else if !pb.ok && !vt.ok then "both-reject" else "one-rejects"
+  let st (d : Dec) : String := if d.ok then (if d.unknown > 0 then "ok+unknown" else "ok") else d.err
+  let sig := s!"raw:{cls}: lean={if lean.isSome then "ok" else "reject"} proto.Unmarshal={st pb} UnmarshalVT={st vt} go:{goSame}"
+  pure { agree := dis.isEmpty, spec := true, excluded := true, sig := sig,
+         why := match dis with | w :: _ => s!"{name} [{note}]: {w}" | [] => "",
+         cover := ["stream:raw", s!"raw:{cls}", "domain:excluded", s!"msg:{name}"],
+         nontrivial := false, model := Json.mkObj [("lean_accepts", lean.isSome)] }
+
 def judge (j : Json) : Except String Verdict := do
   let inp ← getObj j "in"
   if getStrD j "op" == "encode" then judgeEncode apiSchema inp
   else
     let obs ← getObj j "obs"
-    judgeCase apiSchema inp obs
+    if getStrD inp "stream" == "raw" then judgeRaw apiSchema inp obs
+    else judgeCase apiSchema inp obs
 
 def main : IO UInt32 := runLines judge
 end Drv.C12
